@@ -77,6 +77,9 @@ func (c *Case) stepViolate(sig, detail string) {
 
 func (c *Case) c07Before(m *specqbft.SignedMessage) c07Pre {
 	p := c07Pre{faultInjected: c.nf != ""}
+	if !c.c07 {
+		return p
+	}
 	inst := c.c07Inst()
 	if inst == nil || inst.State.Decided || !inst.CanProcessMessages() {
 		return p
@@ -96,9 +99,10 @@ func (c *Case) c07Before(m *specqbft.SignedMessage) c07Pre {
 			}
 			p.quorumBefore = specqbft.HasQuorum(inst.State.Share, forRound)
 		case specqbft.ProposalMsgType:
-			p.refusalCandidate = sigOk(c.env, m) && string(m.Message.Identifier) == string(c.env.identifier) &&
+			ld, ldOK := safeLeader(inst.State, m.Message.Round)
+			p.refusalCandidate = ldOK && m.Signers[0] == ld && uint64(m.Message.Round) < uint64(instance.CutoffRound) &&
+				sigOk(c.env, m) && string(m.Message.Identifier) == string(c.env.identifier) &&
 				sha256.Sum256(m.FullData) == m.Message.Root && c.valCheck(m.FullData) == nil &&
-				int(m.Message.Round) < instance.CutoffRound && m.Signers[0] == specqbft.RoundRobinProposer(inst.State, m.Message.Round) &&
 				(m.Message.Round > p.round || (m.Message.Round == p.round && !p.accepted))
 		}
 	}
